@@ -139,6 +139,12 @@ impl<'a, R: CharRead> Lexer<'a, R> {
     pub fn lookahead_char(&mut self) -> Result<char, ParserError> {
         match self.reader.peek_char() {
             Some(Ok(c)) => Ok(c),
+            Some(Err(e)) if e.kind() == std::io::ErrorKind::InvalidData => {
+                // bytes that are not UTF-8 are a syntax error, not the
+                // end of the input; they are skipped along with the report.
+                self.reader.skip_bad_bytes(&e);
+                Err(ParserError::from(e))
+            }
             _ => Err(ParserError::unexpected_eof()),
         }
     }
@@ -146,6 +152,10 @@ impl<'a, R: CharRead> Lexer<'a, R> {
     pub fn read_char(&mut self) -> Result<char, ParserError> {
         match self.reader.read_char() {
             Some(Ok(c)) => Ok(c),
+            Some(Err(e)) if e.kind() == std::io::ErrorKind::InvalidData => {
+                self.reader.skip_bad_bytes(&e);
+                Err(ParserError::from(e))
+            }
             _ => Err(ParserError::unexpected_eof()),
         }
     }
